@@ -72,7 +72,7 @@ func funcIsNonnull(js JSWriter, args []ast.Node) {
 }
 
 func funcLength(js JSWriter, args []ast.Node) {
-	js.Write(args[0], ".length")
+	js.Write("(", args[0], ").length")
 }
 
 func funcRound(js JSWriter, args []ast.Node) {
@@ -106,7 +106,7 @@ func funcRandomInt(js JSWriter, args []ast.Node) {
 }
 
 func funcStrContains(js JSWriter, args []ast.Node) {
-	js.Write(args[0], ".indexOf(", args[1], ") != -1")
+	js.Write("(", args[0], ").indexOf(", args[1], ") != -1")
 }
 
 func funcHasData(js JSWriter, args []ast.Node) {
